@@ -572,9 +572,25 @@ class NetworkGraph(AbstractBaseIR):
                 orders = [dde_approx if m else 0 for m in delays]
                 rates = [dde_approx / m if m else 0.0 for m in delays]
 
+            # --- Pure delays among distributed ones ---
+            # An edge with a delay but without a spread (and without `dde_approx`) that shares its source variable
+            # with distributed-delay edges has no kernel: it keeps its discrete delay (ring buffer under fixed-step
+            # solvers, history access under adaptive ones) instead of being passed through undelayed.
+            pure_slots = {}
+            for slot_idx, (m, n_order) in enumerate(zip(delays, orders)):
+                if m and n_order == 0:
+                    if self.step_size_adaptation:
+                        pure_slots[slot_idx] = float(m)
+                    else:
+                        d_steps = self._preprocess_delay(m, discretize=True)
+                        if d_steps > 1:
+                            pure_slots[slot_idx] = d_steps
+
             # --- Group delay slots by (order, rate) — slots in the same group share one ODE chain ---
             groups = {}
             for slot_idx, (n_order, rate, src) in enumerate(zip(orders, rates, source_idx)):
+                if slot_idx in pure_slots:
+                    continue
                 key = (n_order, round(rate, 12))
                 if key not in groups:
                     groups[key] = []
@@ -640,6 +656,36 @@ class NetworkGraph(AbstractBaseIR):
                                            'value': np.asarray(slot_indices, dtype='int'),
                                            'shape': (len(slot_indices),)}
                     buffer_eqs.append(f"index({buf_var}, {slot_name}) = {prev}")
+
+            if pure_slots:
+                scalar_source = len(target_shape) < 1 or (len(target_shape) == 1 and target_shape[0] == 1)
+
+                def _slot(slot_idx):
+                    # a buffer with a single slot is assigned as a whole (as the chains do)
+                    return buf_var if len(delays) == 1 else f"index({buf_var}, {slot_idx})"
+
+                if self.step_size_adaptation:
+                    for slot_idx, d in pure_slots.items():
+                        delayed = f"past({var}, {d})"
+                        if not scalar_source:
+                            delayed = f"index({delayed}, {int(source_idx[slot_idx])})"
+                        buffer_eqs.append(f"{_slot(slot_idx)} = {delayed}")
+                else:
+                    self._uses_edge_delay_buffer = True
+                    ring = f"{var}_buffer{buffer_id}"
+                    max_steps = max(pure_slots.values())
+                    if scalar_source:
+                        var_dict[ring] = {'vtype': 'variable', 'dtype': 'float', 'shape': (max_steps + 1,), 'value': 0.}
+                        buffer_eqs += [f"index_axis({ring}) = roll({ring}, 1)", f"index({ring}, 0) = {var}"]
+                        for slot_idx, d_steps in pure_slots.items():
+                            buffer_eqs.append(f"{_slot(slot_idx)} = index({ring}, {d_steps})")
+                    else:
+                        var_dict[ring] = {'vtype': 'variable', 'dtype': 'float',
+                                          'shape': (target_shape[0], max_steps + 1), 'value': 0.}
+                        buffer_eqs += [f"index_axis({ring}) = roll({ring}, 1, 1)", f"index_axis({ring}, 0, 1) = {var}"]
+                        for slot_idx, d_steps in pure_slots.items():
+                            buffer_eqs.append(f"{_slot(slot_idx)} = "
+                                              f"index_2d({ring}, {int(source_idx[slot_idx])}, {d_steps})")
 
         # discretized edge buffers
         ##########################
